@@ -52,7 +52,18 @@ func opLogOf(a *AirNode) string {
 	var sb strings.Builder
 	for _, r := range rs {
 		fmt.Fprintf(&sb, "%.6s:", r)
+		commits := 0
 		for _, o := range lg[r] {
+			if string(o.Type) == string(dpf.StateDkgCommitsAwaitConfirmations) {
+				// the harness's duplicated hand-overs of the commits file (refused by
+				// the machine, logged all the same) happen at tape-chosen moments that
+				// differ between the uninterrupted and the interrupted run: only the
+				// first commits entry of a round is compared
+				commits++
+				if commits > 1 {
+					continue
+				}
+			}
 			fmt.Fprintf(&sb, "%s,", o.Type)
 		}
 		sb.WriteString(";")
@@ -117,6 +128,7 @@ func runC12World(w *World, tier string, crashAt []int, out *c12Out) (bool, inter
 	}
 	stepRank := map[string]int{string(dpf.StateDkgCommitsAwaitConfirmations): 1, string(dpf.StateDkgDealsAwaitConfirmations): 2, string(dpf.StateDkgResponsesAwaitConfirmations): 3, string(dpf.StateDkgMasterKeyAwaitConfirmations): 4, "state_signing_await_partial_signs": 5}
 	curOp := map[int]string{}
+	dupHandOver := w.Tape.Bool(1, 2, "duplicateHandOver")
 	for i, op := range c.Ops {
 		i, op := i, op
 		if i == backNode {
@@ -138,6 +150,18 @@ func runC12World(w *World, tier string, crashAt []int, out *c12Out) (bool, inter
 			}
 		}
 		op.PreAir = func(o *types.Operation, opJSON []byte) {
+			// duplicated hand-over: before a later step's file, the operator feeds the
+			// round's commits file once more (the stick still holds it). The machine
+			// refuses it; a restart and replay afterwards must still end like the
+			// uninterrupted run (which saw the same duplicate).
+			if dupHandOver && stepRank[string(o.Type)] >= 2 && len(out.fed[i]) > 0 && w.Tape.Bool(1, 3, "dupNow?") {
+				var first types.Operation
+				if json.Unmarshal(out.fed[i][0], &first) == nil && string(first.Type) == string(dpf.StateDkgCommitsAwaitConfirmations) {
+					curOp[i] = string(first.Type) + "(again)"
+					_, _ = w.AirProcess(w.Airs[i], out.fed[i][0])
+					w.Stats.Fault("operation-file-handed-over-twice")
+				}
+			}
 			curOp[i] = string(o.Type)
 			out.fed[i] = append(out.fed[i], append([]byte(nil), opJSON...))
 		}
